@@ -25,6 +25,16 @@ def safe(fn):
 
 
 def safety_outcome(insp):
+    """The outcome of safety_check(); the check is asked twice - it is a verdict about the stream, so asking again
+    must give the same answer (an inspector whose answer changes is reported as 'unstable')."""
+    first = _safety_outcome_once(insp)
+    second = _safety_outcome_once(insp)
+    if first != second:
+        return ('unstable:%s->%s' % (first[0], second[0]), sorted(set(first[1]) | set(second[1])))
+    return first
+
+
+def _safety_outcome_once(insp):
     try:
         r = insp.safety_check()
         if r is not None:
